@@ -54,6 +54,8 @@ W_CHAN_LEN = "sanitizer: ChannelData length field exceeds the received packet (u
 W_SHORT = "sanitizer: packet shorter than 4 bytes read as a ChannelData header while a channel is bound (udp-turn.c recv:)"
 W_PADDED = "relay receives DATA padded to a multiple of 4: Send request of GOOGLE/MSN mode writes the aligned length (stun_message_append, no cookie)"
 W_IDS = "payload sent un-relayed to the peer address: 200 Send requests unanswered (stun_agent_finish_message returned 0, error pass-through)"
+TRIGGER = {W_CHAN_LEN: "channeldata-length-exceeds-packet", W_SHORT: "short-packet-read-as-channeldata-header",
+           W_PADDED: "send-request-data-length-padded", W_IDS: "send-request-saved-ids-exhausted"}
 
 
 def prebuild():
@@ -170,6 +172,11 @@ class Relay:
         self.chans = {}         # channel -> peer (installed)
         self.perm_req = {}      # tid -> peer
         self.perms = set()
+        self.now = 0            # virtual ms, advanced by the oracle on T ops
+        self.perm_asked = {}    # peer -> time of the latest CreatePermission request
+        self.perm_realm = {}    # tid -> REALM the request carried
+        self.perm_answered = set()   # peers whose CreatePermission got a final answer (success or error other than 401/438)
+        self.early = []         # data that reached the relay while the peer's first request was young and unanswered
         self.active_req = {}    # tid -> peer   (Set Active Destination)
         self.send_req = {}      # tid -> (peer, options)
         self.active = None
@@ -186,6 +193,7 @@ class Relay:
                 ch, l = struct.unpack(">HH", b[:4])
                 if ch in self.chans and len(b) >= 4 + l:
                     self.delivered.append((self.chans[ch], b[4:4 + l]))
+                    self.check_held(self.chans[ch])
                 else:
                     self.garbage.append(b)
                 return
@@ -201,9 +209,12 @@ class Relay:
                     self.garbage.append(b)
                 else:
                     self.delivered.append((peer, d))
+                    self.check_held(peer)
             elif mtype == 0x0008:
                 pa = first(at, 0x12)
                 self.perm_req[id16] = dec_addr_attr(pa, id16) if pa is not None else None
+                self.perm_realm[id16] = first(at, 0x14)
+                self.perm_asked[self.perm_req[id16]] = self.now
             elif mtype == 0x0009:
                 pa, cn = first(at, 0x12), first(at, 0x0c)
                 if pa is not None and cn is not None and len(cn) == 4:
@@ -230,6 +241,15 @@ class Relay:
             else:
                 self.garbage.append(b)
 
+    def check_held(self, peer):
+        """RFC 5766 mode of the socket: data for a peer must not leave before a CreatePermission request for that peer
+        has been answered or has had time to time out (first retransmission is due after 500 ms)."""
+        if self.compat != RFC5766 or peer in self.perm_answered:
+            return
+        t = self.perm_asked.get(peer)
+        if t is None or self.now - t < 500:
+            self.early.append(peer)
+
     def answered(self, pkt):
         """the relay (i.e. the generator) sent [pkt]: update the relay state a compliant relay would have."""
         m = parse_stun(pkt, self.aligned)
@@ -242,6 +262,14 @@ class Relay:
                 self.chans[ch] = peer
             elif mtype == 0x0108 and id16 in self.perm_req:
                 self.perms.add(self.perm_req[id16])
+                self.perm_answered.add(self.perm_req[id16])
+            elif mtype == 0x0118 and id16 in self.perm_req:
+                # 438, and 401 naming another realm than the request did, ask for a new request; everything else is final
+                e = first(at, 0x09)
+                code = (e[2] & 7) * 100 + e[3] if e is not None and len(e) >= 4 else 0
+                rr = first(at, 0x14)
+                if not (code == 438 or (code == 401 and not (rr and rr == self.perm_realm.get(id16)))):
+                    self.perm_answered.add(self.perm_req[id16])
         else:
             if mtype == 0x0106 and id16 in self.active_req and self.compat in (MSN, OC2007):
                 self.active = self.active_req[id16]
@@ -625,7 +653,7 @@ CORPUS = [
 
 
 def gen_cases(rng, tier):
-    n = 2600 if tier == "quick" else 60000
+    n = 12000 if tier == "quick" else 200000
     cs = list(CORPUS)
     for i in range(n):
         r = rng.random()
@@ -707,21 +735,25 @@ def oracle(line, out, kind):
             break
         pkt = expand_template(f[2], log) if f[0] == "R" else None
         if head.startswith("T?"):
-            return "generator left the modelled range (%s)" % head
+            return "generator left the modelled range :: %s" % head
         if head.startswith("R!"):
             if head == "R!abort":
-                return "assertion failure inside the TURN socket on a packet from the relay side: %s" % pkt.hex()
+                return "assertion failure inside the TURN socket on a packet from the relay side :: %s" % pkt.hex()
             if rfc and relay.chans and len(pkt) < 4:
                 return W_SHORT
             if rfc and len(pkt) >= 4 and struct.unpack(">H", pkt[:2])[0] in relay.chans and struct.unpack(">H", pkt[2:4])[0] > len(pkt) - 4:
                 return W_CHAN_LEN
-            return "sanitizer report while parsing a packet from the relay side: %s (from %s)" % (pkt.hex(), f[1])
+            return "sanitizer report while parsing a packet from the relay side :: %s (from %s)" % (pkt.hex(), f[1])
+        if f[0] == "T":
+            relay.now += int(f[1])
+        if f[0] == "R":
+            relay.answered(pkt)          # the relay acted before the socket reacts
         if f[0] == "S":
             peer, p = tok_addr(f[1]), vlib.unhex(f[2])
             ret = int(head[1:])
             if ret < 0:
                 if len(p) <= 65000 and structured:
-                    return "send of %d bytes to %s refused (%d)" % (len(p), f[1], ret)
+                    return "send refused :: %d bytes to %s returned %d" % (len(p), f[1], ret)
             else:
                 expected.setdefault(peer, []).append(p)
         for to, b in dgs:
@@ -732,14 +764,16 @@ def oracle(line, out, kind):
                 to_, b_ = relay.unrelayed[-1]
                 if compat in (GOOGLE, MSN) and len(relay.send_req) >= 200:
                     return W_IDS
-                return "datagram handed to the base socket for %s instead of the relay: %s" % (addr_tok(to_), b_.hex()[:80])
+                return "datagram handed to the base socket for another address than the relay's :: to %s: %s" % (addr_tok(to_), b_.hex()[:80])
             if structured and relay.garbage:
-                return "relay cannot decode what the socket sent: %s" % relay.garbage[-1].hex()[:120]
+                return "relay cannot decode what the socket sent :: %s" % relay.garbage[-1].hex()[:120]
+            if structured and relay.early:
+                return "data left for a peer whose CreatePermission request was neither answered nor old enough to time out :: peer %s" % addr_tok(relay.early[-1])
             for peer, data in relay.delivered[before:]:
                 q = expected.get(peer, [])
                 if not q:
                     if structured:
-                        return "peer %s receives %d bytes nobody sent" % (addr_tok(peer), len(data))
+                        return "a peer receives data nobody sent :: peer %s, %d bytes" % (addr_tok(peer), len(data))
                     continue
                 want = q[0]
                 if data != want:
@@ -748,11 +782,10 @@ def oracle(line, out, kind):
                     if compat in (GOOGLE, MSN) and relay.active is None and len(want) % 4 and data == want + bytes((-len(want)) % 4):
                         return W_PADDED
                     if any(data == x for x in q[1:]):
-                        return "peer %s receives queued data out of order" % addr_tok(peer)
-                    return "peer %s receives %s but %s was sent" % (addr_tok(peer), data.hex()[:60], want.hex()[:60])
+                        return "a peer receives queued data out of order :: peer %s" % addr_tok(peer)
+                    return "a peer receives other bytes than were sent :: peer %s receives %s, sent %s" % (addr_tok(peer), data.hex()[:60], want.hex()[:60])
                 q.pop(0)
         if f[0] == "R":
-            relay.answered(pkt)
             if structured and f[1] == SERVER:
                 exp = None
                 if rfc and len(pkt) >= 4 and 0x40 <= pkt[0] <= 0x7f:
@@ -775,12 +808,12 @@ def oracle(line, out, kind):
                     h = head.split(":")
                     got = (tok_addr(h[1]), vlib.unhex(h[2]))
                     if got != exp:
-                        return "relay forwarded %d bytes from %s, socket handed up %d bytes from %s" % (len(exp[1]), addr_tok(exp[0]), len(got[1]), h[1])
+                        return "socket hands up something else than the relay forwarded :: relay: %d bytes from %s, handed up: %d bytes from %s" % (len(exp[1]), addr_tok(exp[0]), len(got[1]), h[1])
     if structured and steps and steps[-1][1] is not None:
         # every structured case ends with a clock advance past the CreatePermission time-out: nothing may still be held
         for peer, q in expected.items():
             if q:
-                return "%d datagram(s) for %s accepted by the socket never reached the relay (first: %s)" % (len(q), addr_tok(peer), q[0].hex()[:60])
+                return "datagrams accepted by the socket never reached the relay :: %d for %s (first: %s)" % (len(q), addr_tok(peer), q[0].hex()[:60])
     return None
 
 
@@ -809,9 +842,11 @@ def correspond(chk, cases, model, impl):
         bad = oracle(line, io, kind)
         if bad:
             orf += 1
-            seen[bad] = seen.get(bad, 0) + 1
-            if seen[bad] <= 1 or (seen[bad] <= 2 and bad not in (W_CHAN_LEN, W_SHORT, W_PADDED, W_IDS)):
-                chk.violation({"kind": "oracle", "why": bad, "case": line[:200000], "impl": io[:200000], "input_kind": kind},
+            cls = bad.split(" :: ")[0]
+            seen[cls] = seen.get(cls, 0) + 1
+            if seen[cls] <= 1 or (seen[cls] <= 2 and cls not in TRIGGER):
+                chk.violation({"kind": "oracle", "trigger": TRIGGER.get(cls, "other"), "why": bad, "case": line[:200000],
+                               "impl": io[:200000], "input_kind": kind},
                               "turn: property oracle failed on the implementation: %s\n case: %s\n impl: %s" % (bad, line[:400], io[:400]))
         if model:
             if mo != io:
